@@ -7,7 +7,8 @@ P="$1"; shift
 W=/tmp/work-dev
 cd $W/repo || exit 2
 git diff --quiet || { echo "$W/repo dirty; refusing"; exit 3; }
-trap 'cd $W/repo && git checkout -- .' EXIT INT TERM
+# (the binaries are rebuilt from the reverted tree on the way out: a later run must not meet a patched rg)
+trap 'cd $W/repo && git checkout -- . && ( CARGO_PROFILE_DEV_OPT_LEVEL=1 CARGO_TARGET_DIR=$W/rgtarget cargo build --offline --bin rg; CARGO_PROFILE_DEV_OPT_LEVEL=1 CARGO_TARGET_DIR=$W/rgjtarget cargo build --offline --bin rg --features verif-hooks; cd $W/harness && CARGO_TARGET_DIR=$W/target cargo build --offline ) >/dev/null 2>&1' EXIT INT TERM
 git apply "$P" || { echo "patch does not apply"; exit 3; }
 export CARGO_NET_OFFLINE=true
 ( CARGO_PROFILE_DEV_OPT_LEVEL=1 CARGO_TARGET_DIR=$W/rgtarget cargo build --offline --bin rg && CARGO_PROFILE_DEV_OPT_LEVEL=1 CARGO_TARGET_DIR=$W/rgjtarget cargo build --offline --bin rg --features verif-hooks ) >/tmp/dev_eval_build.log 2>&1 || { tail -20 /tmp/dev_eval_build.log; exit 2; }
